@@ -1,29 +1,42 @@
-import AdfObdd.CountSearchS
-import AdfObdd.Cubes
-import AdfObdd.Stable
-import AdfObdd.SearchModel
+import AdfObdd.CountExact
+import AdfObdd.AdfPipeline
 /-! # C04 — the counting-guided stable search returns exactly the stable models
 
-`GS.search` is the recursion of `two_val_model_counts_logic` (as repaired by D1): pick an undecided
-statement by ANY selection function, enumerate the path cubes of its residual towards the goal value
-(threading the store through the sibling branches), then conclude the opposite value. The theorem is
-proved for every instance whose steps satisfy the soundness laws `GS.CSound`; the cube laws are C13's
-cube theorems. -/
+`GK.search` (`CountSearchK.lean`) is the recursion of `two_val_model_counts_logic` (as repaired by D1):
+pick a statement undecided in `interpr` and `will_be` by the heuristic's `min_by`, enumerate the path
+cubes of its residual towards the goal value threading the store through the sibling branches, then
+conclude the opposite value; the leaf runs `apply_interpretation` in the store as well. The concrete
+model `countLogic` / `countAll` (`CountModel.lean`, what the driver runs handle for handle against
+the Rust) IS `GK.search` instantiated with the code's steps `countParams` — there is no separate
+simulation and no `partial def`.
+
+* `search_exact`: the generic machine is complete, sound, emits pairwise disjoint outputs and only
+  extends the store, for every instance satisfying the laws `GK.CSound`, with `n + 1` levels.
+* `concrete_steps_lawful`: the code's steps (cube step = `applyCube` + `new_int[idx] = goal` + one
+  propagation step + `check_consistency`; flip step = restriction of every entry + one propagation
+  step + the two `no_inf_inconsistency` tests + `will_be[idx]`; leaf; both heuristics) satisfy the
+  laws, under the invariant `CI.CInv` (`WF s`, lengths, valid handles, the vector is residual
+  relative to the target set, `will_be[i]` constant ⇒ `interpr[i]` the same constant).
+* `count_search_exact`: `countAll` = grounded start + search + stability filter returns a `Nodup`
+  list whose decided parts are exactly the stable models (`count_search_exact_statement`).
+* `count_search_end_to_end`: the same from the written formulas (`from_parser` model).
+* the unrepaired cube loop (D1) loses a model: replayed by evaluation (`#guard`) at the end. -/
 namespace C04
 
-/-- complete, sound, pairwise-disjoint outputs, store only extended, `n + 1` levels of recursion —
-for every selection strategy (both heuristics, any tie-breaking) -/
-theorem search_exact {S C : Type} {T : Asg → Prop} {P : GS.CParams S C} (hP : GS.CSound T P)
-    (fuel : Nat) (s : S) (c : C) (hinv : P.Inv s c) (hf : P.n - decided (P.abs c) < fuel) :
-    GS.Spec T P s c (GS.search P fuel s c) := GS.search_spec hP fuel s c hinv hf
+/-- the generic machine: store only extended, complete, sound, pairwise-disjoint outputs, every output
+good, `n + 1` levels of recursion — for every selection strategy (both heuristics, any tie-breaking) -/
+theorem search_exact {S C K O : Type} {T : Asg → Prop} {P : GK.CParams S C K O} {V : GK.View S C K O}
+    (hP : GK.CSound T P V) (fuel : Nat) (s : S) (c : C) (hinv : V.Inv s c) (hf : V.n - V.mu c < fuel) :
+    GK.Spec T V s c (GK.search P fuel s c) := GK.search_spec hP fuel s c hinv hf
 
-/-- what `Spec` says, spelled out: every target model extending the start is covered by an output,
-every output lies inside the start, outputs are pairwise disjoint (hence each model once) -/
-theorem spec_meaning {S C : Type} {T : Asg → Prop} {P : GS.CParams S C} {s : S} {c : C} {r : S × List PA}
-    (h : GS.Spec T P s c r) :
-    (∀ σ, T σ → Matches (P.abs c) σ → ∃ o ∈ r.2, Matches o σ) ∧
-    (∀ o ∈ r.2, ∀ σ, Matches o σ → Matches (P.abs c) σ) ∧ r.2.Pairwise Disj :=
-  ⟨h.cover, h.sound, h.disj⟩
+/-- what `Spec` says, spelled out: every target assignment of the start region lies in the region of
+an output, every output region lies inside the start region, output regions are pairwise disjoint
+(hence each model once) -/
+theorem spec_meaning {S C K O : Type} {T : Asg → Prop} {V : GK.View S C K O} {s : S} {c : C} {r : S × List O}
+    (h : GK.Spec T V s c r) :
+    (∀ σ, T σ → V.Reg c σ → ∃ o ∈ r.2, V.RegO o σ) ∧
+    (∀ o ∈ r.2, ∀ σ, V.RegO o σ → V.Reg c σ) ∧ r.2.Pairwise (GK.DisjO V) ∧ (∀ o ∈ r.2, V.Good o) :=
+  ⟨h.cover, h.sound, h.disj, h.good⟩
 
 /-- the cube laws the concrete instance needs are theorems about the model of `Bdd::interpretations` -/
 theorem cube_laws (s : Store) (w : WF s) (t : Nat) (goal : Bool) (gv : Nat) (ht : t < s.nodes.size) (ht2 : 2 ≤ t) :
@@ -38,8 +51,29 @@ theorem final_filter_is_stability (D : List BoolFn) (v w : I3) (hlen : v.length 
     w = v ↔ (Gam D v = v ∧ ∀ (i : Nat), v[i]? = some (some true) → w[i]? = some (some true)) :=
   stable_check_iff D v w hlen ht hw
 
+/-- the steps of `two_val_model_counts_logic` satisfy the laws of the generic machine — for every
+target set `T` (the invariant `CI.CInv` says the vector is residual relative to `T`) and both
+heuristics (`useA`) -/
+theorem concrete_steps_lawful (n : Nat) (ac : List Nat) (T : Asg → Prop) (useA : Bool) :
+    GK.CSound T (countParams ac useA) (CI.view n ac T) := CI.csound n ac T useA
+
+/-- the recursion of the code, started in any state satisfying the invariant: complete for `T`,
+sound, pairwise disjoint, all outputs total of length `n`, store only extended; fuel `n + 1` -/
+theorem count_logic_spec {n : Nat} {ac : List Nat} {T : Asg → Prop} (useA : Bool) {s : Store}
+    {interp wb : List Nat} (hinv : CI.CInv n ac T s (interp, wb)) :
+    GK.Spec T (CI.view n ac T) s (interp, wb) (countLogic ac useA (n + 1) s interp wb) :=
+  CI.countLogic_spec useA hinv
+
+/-- the grounded vector with `will_be = [u; n]` satisfies the invariant, for the target set of the
+(pointwise) two-valued models of the conditions -/
+theorem start_invariant (s : Store) (n : Nat) (ac : List Nat) (w : WF s) (hn : ac.length = n)
+    (hv : ∀ t ∈ ac, t < s.nodes.size) :
+    CI.CInv n ac (CI.TM (ac.map (eval s))) (groundedLoop StoreRA (n + 1) s ac).1
+      ((groundedLoop StoreRA (n + 1) s ac).2, List.replicate n 2) :=
+  (CI.start_inv s n ac w hn hv).1
+
 /-- full statement for the concrete model `countAll` (what the driver runs, handle-exact with the
-code); PARTIAL: the laws `CSound` are not yet discharged for the concrete steps -/
+code): the decided parts of the returned vectors are exactly the stable models, each once -/
 def count_search_exact_statement : Prop :=
   ∀ (s : Store) (n : Nat) (ac : List Nat) (useA : Bool), WF s → ac.length = n → (∀ t ∈ ac, t < s.nodes.size) →
     let D := ac.map (eval s)
@@ -48,6 +82,88 @@ def count_search_exact_statement : Prop :=
       (v.length = n ∧ TotalI v ∧ Gam D v = v ∧
         ∀ w : I3, IsLfp (redu D v) w → ∀ i : Nat, v[i]? = some (some true) → w[i]? = some (some true))
 
-example : ([] : List PA).Pairwise Disj := List.Pairwise.nil
+/-- **C04**: `stable_count_optimisation_heu_a/b` on the store model return exactly the stable models,
+no model lost to pruning, none invented, each reported once -/
+theorem count_search_exact : count_search_exact_statement := by
+  intro s n ac useA w hn hv
+  exact CI.countAll_exact s n ac useA w hn hv
+
+/-- C04 end to end from the written acceptance conditions (`from_parser` model + search) -/
+theorem count_search_end_to_end (fms : List Fm) (useA : Bool) (hn : fms.length ≤ VBOT)
+    (hv : ∀ f ∈ fms, f.atomsOK) :
+    let b := buildNative fms.length fms
+    let out := (countAll b.1 fms.length b.2 useA).2.map (fun v => v.map storeIsConst)
+    out.Nodup ∧ ∀ v : I3, v ∈ out ↔ CI.IsStable fms.length (fms.map Fm.sem) v := by
+  intro b out
+  have ⟨w, hl, h⟩ := buildNative_correct fms.length fms hn hv
+  have hvalid : ∀ t ∈ b.2, t < b.1.nodes.size := by
+    intro t ht
+    obtain ⟨i, hi, rfl⟩ := List.getElem_of_mem ht
+    have hi' : i < fms.length := by have : b.2.length = fms.length := hl; omega
+    exact (h i _ _ (List.getElem?_eq_getElem hi) (List.getElem?_eq_getElem hi')).1
+  have e : b.2.map (eval b.1) = fms.map Fm.sem :=
+    map_eval_eq_sem b.1 b.2 fms hl (fun i t f a c => (h i t f a c).2)
+  have := CI.countAll_exact b.1 fms.length b.2 useA w hl hvalid
+  rw [e] at this
+  exact this
+
+/-! ### non-vacuity -/
+
+/-- the hypotheses of `search_exact` are satisfiable by the concrete instance: the laws hold
+(`concrete_steps_lawful`) and the invariant holds of a real start state -/
+example : ∃ (s : Store) (c : CState), (CI.view 1 [1] (CI.TM ([1].map (eval Store.init)))).Inv s c :=
+  ⟨_, _, start_invariant Store.init 1 [1] WF_init' rfl (by simp [Store.init])⟩
+
+example : GK.Spec (CI.TM ([1].map (eval Store.init))) (CI.view 1 [1] (CI.TM ([1].map (eval Store.init))))
+    (groundedLoop StoreRA 2 Store.init [1]).1 ((groundedLoop StoreRA 2 Store.init [1]).2, List.replicate 1 2)
+    (countLogic [1] true 2 (groundedLoop StoreRA 2 Store.init [1]).1 (groundedLoop StoreRA 2 Store.init [1]).2
+      (List.replicate 1 2)) :=
+  count_logic_spec true (start_invariant Store.init 1 [1] WF_init' rfl (by simp [Store.init]))
+
+/-- `count_search_exact` on a real ADF (one statement with condition ⊤): the right-hand side is
+inhabited, so the stable model `[t]` is in the answer -/
+example : [some true] ∈ (countAll Store.init 1 [1] true).2.map (fun v => v.map storeIsConst) := by
+  have h := (count_search_exact Store.init 1 [1] true WF_init' rfl (by simp [Store.init])).2 [some true]
+  apply h.mpr
+  have hD : [1].map (eval Store.init) = [fun _ => true] := by
+    simp only [List.map_cons, List.map_nil]; congr 1
+  simp only [hD]
+  refine ⟨rfl, ?_, ?_, ?_⟩
+  · intro i hi
+    have : i = 0 := by simpa using hi
+    subst this; exact ⟨true, rfl⟩
+  · simp only [Gam, List.map_cons, List.map_nil]
+    congr 1
+    exact constOf_some.mpr (fun _ => rfl)
+  · intro w hw i hi
+    have hi0 : i = 0 := by
+      rcases Nat.lt_or_ge i 1 with h' | h'
+      · omega
+      · rw [List.getElem?_eq_none (by simpa using h')] at hi; cases hi
+    subst hi0
+    rw [← hw.1]
+    simp only [Gam, redu, List.map_cons, List.map_nil, List.getElem?_cons_zero, Option.some.injEq]
+    exact constOf_some.mpr (fun _ => rfl)
+
+example : (cubesF Store.init 1 0 true 0 [] []).Pairwise DisjPC := by simp [cubesF]
+
+example : ∃ (fms : List Fm), fms.length ≤ VBOT ∧ ∀ f ∈ fms, f.atomsOK :=
+  ⟨[.atom 0], by simp [VBOT], by simp [Fm.atomsOK, VBOT]⟩
+
+/-! ### D1 replay: the unrepaired cube loop loses a stable model
+
+`countParams … (unrepaired := true)` cuts the cube list at the first cube that contradicts the
+current vectors — the closure of the outer `try_for_each` that returned `res`. On the framework
+`s(a).s(b).s(c).s(d).ac(a,xor(b,d)).ac(b,c).ac(c,c).ac(d,c).` the only stable model `FFFF` is lost
+(with D4 repaired, as it is in the tree now, the three-statement witness of the pre-study no longer
+triggers D1; this four-statement one does). Evaluation by the compiler's interpreter (`#guard`):
+the kernel cannot evaluate the store's hash tables (`mixHash` is opaque), so this is a replay, not a
+theorem. That `FFFF` must be found by the repaired code is `count_search_exact`. -/
+def d1Witness : Store × List Nat := buildNative 4 [.xor (.atom 1) (.atom 3), .atom 2, .atom 2, .atom 2]
+
+#guard (countAll d1Witness.1 4 d1Witness.2 true).2 == [[0, 0, 0, 0]]
+#guard (countAll d1Witness.1 4 d1Witness.2 false).2 == [[0, 0, 0, 0]]
+#guard (countAllUnrepaired d1Witness.1 4 d1Witness.2 true).2 == []
+#guard (countAllUnrepaired d1Witness.1 4 d1Witness.2 false).2 == []
 
 end C04
